@@ -281,6 +281,10 @@ func Preempt(site string) {
 
 var cur atomic.Pointer[Sim]
 
+// last is the most recent simulation, also after it was closed: goroutines of a run that is being torn down still
+// unwind through the lock hooks and must keep their lock records exact.
+var last atomic.Pointer[Sim]
+
 // Active reports whether a simulation is running.
 func Active() *Sim { return cur.Load() }
 
@@ -302,6 +306,7 @@ func New(tape []byte, seed uint64) *Sim {
 		ptMu.Unlock()
 	}
 	cur.Store(s)
+	last.Store(s)
 	go s.loop()
 	return s
 }
@@ -525,6 +530,20 @@ func (s *Sim) spawn(parent *G, id, role string, f func()) *G {
 			g.parked = false
 			s.holder.CompareAndSwap(g.goid, 0)
 			delete(s.gs, g.goid)
+			// a goroutine that ends (killed at teardown, or panicking) while it still holds a mutex it would have
+			// released with a plain Unlock further down: package-level mutexes outlive the run, and the next run
+			// in this process would wait for them forever
+			for i := len(g.locks) - 1; i >= 0; i-- {
+				l := g.locks[i]
+				if l.shared {
+					l.m.(rlocker).RUnlock()
+				} else if lk := l.m.(locker); lk.TryLock() {
+					lk.Unlock() // already free
+				} else {
+					lk.Unlock()
+				}
+			}
+			g.locks = nil
 			if r != nil {
 				s.Crashes = append(s.Crashes, Crash{Goroutine: g.ID, Role: g.Role, Value: fmt.Sprint(r), Stack: string(debug.Stack())})
 			}
@@ -632,6 +651,11 @@ func Unlock(site string, m locker) {
 	m.Unlock()
 	s := cur.Load()
 	if s == nil {
+		if ls := last.Load(); ls != nil {
+			if g := ls.self(); g != nil {
+				g.popLock(m, false)
+			}
+		}
 		return
 	}
 	s.release(m)
@@ -669,6 +693,11 @@ func RUnlock(site string, m rlocker) {
 	m.RUnlock()
 	s := cur.Load()
 	if s == nil {
+		if ls := last.Load(); ls != nil {
+			if g := ls.self(); g != nil {
+				g.popLock(m, true)
+			}
+		}
 		return
 	}
 	s.release(m)
